@@ -16,49 +16,37 @@ def result_type(self_name, scalar, k):
     if self_name == 'Vec3A' and k == 3: return 'Vec3A'
     return '%s%d' % (FAMILY[scalar], k)
 
+def spec(cfg, structs, f):
+    tr = f['trait']
+    if not tr or not tr[0].endswith('Swizzles') or f['by_ref']: return None
+    name = f['name']; sname = tname(f['self'])
+    getter = re.fullmatch('[xyzw]{2,4}', name) and not f['params']; setter = re.fullmatch('with_[xyzw]{2,4}', name) and len(f['params']) == 1
+    if not (getter or setter): return None
+    if f['fid'] is None or f.get('status') == 'missing-callee': return 'untranslated'
+    vs = []; st = sym(structs, f['self'], 'a', vs); sl = tree_leaves(st); scalar = sl[0][1]
+    letters = name[5:] if setter else name
+    try:
+        if getter:
+            rt = result_type(sname, scalar, len(letters))
+            if tshow(f['ret']) != rt: TYPE_MISMATCH.append('%s %s returns %s, documented %s' % (cfg, f['key'], tshow(f['ret']), rt))
+            rtree = sym(structs, {'n': rt}, 'r', []); want = [sl[LET.index(c)][2] for c in letters]
+            rhs = 'Ok (%s)' % tree_fill(rtree, iter(want)); shape = tree_shape(rtree); args = '[%s]' % tree_coq(st); hid = has_hidden(rtree)
+        else:
+            pt = f['params'][0][1]; rt = result_type(sname, scalar, len(letters))
+            if tshow(pt) != rt: TYPE_MISMATCH.append('%s %s takes %s, documented %s' % (cfg, f['key'], tshow(pt), rt))
+            ptree = sym(structs, pt, 'b', vs); pv = tree_leaves(ptree); new = [l[2] for l in sl]
+            for i, c in enumerate(letters): new[LET.index(c)] = pv[i][2]
+            rhs = 'Ok (%s)' % tree_fill(st, iter(new)); shape = tree_shape(st); hid = has_hidden(st); args = '[%s; %s]' % (tree_coq(st), tree_coq(ptree))
+    except (IndexError, ValueError) as e: raise SymErr(str(e))
+    run = 'run O tbl 40 %d%%positive %s' % (f['fid'], args)
+    return {'vars': vs, 'lhs': 'rerase O (%s) (%s)' % (shape, run) if hid else run, 'rhs': rhs, 'spec': 'swizzle %s' % name}
+
+TYPE_MISMATCH = []
 def lemmas(idx):
-    files = {}; seen = {}; notes = {'untranslated': [], 'covered_methods': 0, 'type_mismatch': []}; n = 0; cover = []
-    for cfg in CFGS:
-        structs = idx.structs(cfg)
-        for f in idx.fns(cfg):
-            tr = f['trait']
-            if not tr or not tr[0].endswith('Swizzles') or f['by_ref']: continue
-            name = f['name']; sname = tname(f['self'])
-            getter = re.fullmatch('[xyzw]{2,4}', name) and not f['params']; setter = re.fullmatch('with_[xyzw]{2,4}', name) and len(f['params']) == 1
-            if not (getter or setter): continue
-            if f['fid'] is None or f.get('status') == 'missing-callee':
-                notes['untranslated'].append('%s %s: %s' % (cfg, f['key'], (f.get('err') or f.get('status') or '?')[:60])); continue
-            try:
-                vs = []; st = sym(structs, f['self'], 'a', vs); sl = tree_leaves(st); scalar = sl[0][1]
-                letters = name[5:] if setter else name
-                if getter:
-                    rt = result_type(sname, scalar, len(letters))
-                    if tshow(f['ret']) != rt: notes['type_mismatch'].append('%s %s returns %s, documented %s' % (cfg, f['key'], tshow(f['ret']), rt))
-                    rv = []; rtree = sym(structs, {'n': rt}, 'r', rv)
-                    want = [sl[LET.index(c)][2] for c in letters]
-                    rhs = 'Ok (%s)' % tree_fill(rtree, iter(want)); shape = tree_shape(rtree)
-                    args = '[%s]' % tree_coq(st); hid = has_hidden(rtree)
-                else:
-                    pt = f['params'][0][1]; rt = result_type(sname, scalar, len(letters))
-                    if rt == 'Vec3A' : rt = 'Vec3A'
-                    if tshow(pt) != rt: notes['type_mismatch'].append('%s %s takes %s, documented %s' % (cfg, f['key'], tshow(pt), rt))
-                    pv = tree_leaves(sym(structs, pt, 'b', vs)); ptree = None
-                    vs2 = []; ptree = sym(structs, pt, 'b', vs2)
-                    new = [l[2] for l in sl]
-                    for i, c in enumerate(letters): new[LET.index(c)] = pv[i][2]
-                    rhs = 'Ok (%s)' % tree_fill(st, iter(new)); shape = tree_shape(st); hid = has_hidden(st)
-                    args = '[%s; %s]' % (tree_coq(st), tree_coq(ptree))
-            except (SymErr, IndexError, ValueError) as e:
-                notes['untranslated'].append('%s %s: statement: %s' % (cfg, f['key'], e)); continue
-            run = 'run O tbl 40 %d%%positive %s' % (f['fid'], args)
-            lhs = 'rerase O (%s) (%s)' % (shape, run) if hid else run
-            key = (lhs, rhs)
-            cover.append((cfg, f))
-            if key in seen: seen[key].meta['covers'].append('%s:%s' % (cfg, f['key'])); continue
-            n += 1; lem = Lemma('swz_%d' % n, vs, lhs, rhs, meta={'cfg': cfg, 'key': f['key'], 'file': f['file'], 'fid': f['fid'], 'did': f['did'], 'covers': ['%s:%s' % (cfg, f['key'])], 'spec': 'swizzle %s' % name})
-            seen[key] = lem
-            files.setdefault('Swz_%02d' % (n // 400), []).append(lem)
-    notes['covered_methods'] = len(cover); notes['distinct_statements'] = n; notes['untranslated_count'] = len(notes['untranslated']); notes['untranslated'] = notes['untranslated'][:40]
+    from .. import f1
+    del TYPE_MISMATCH[:]
+    files, notes, cover = f1.build(idx, CFGS, 'swz', spec, per_file=400, pid='C16')
+    notes['type_mismatch'] = list(TYPE_MISMATCH); notes['covered_methods'] = len(cover)
     return files, notes, cover
 
 def run(tier, seed):
@@ -81,5 +69,6 @@ def run(tier, seed):
            'rule': 'one lemma per distinct (function body, typed statement) of every swizzle getter/setter of the sse2, scalar-math and core-simd configurations, for all Ops; correspondence: %d random calls per distinct swizzle (lattice/raw-bit lanes incl. NaN payloads, hidden lane an input), distinct = distinct (function, input words)' % per_fn,
            'samples': [{'lemma': l.name, 'statement': l.statement()[:300], 'covers': l.meta['covers'][:4]} for l in list(files.values())[0][:2]] if files else [],
            'trusted_base': ['Coq 8.16.1 kernel + vm_compute', 'translator rs2v (syn 2) and its cfg evaluation', 'evaluator coq/theories/Base.v', 'method-name spec in harness/props/C16.py', 'correspondence harness (differential, not a proof)'],
+           'covered_keys': ['%s:%s' % (c_, f_['key']) for c_, f_ in cover],
            'assumptions_text': ['the model is the translation of /repo/src by tools/rs2v, validated by the differential run recorded under coverage.correspondence', 'core-simd functions the translator cannot lower yet are listed under notes.untranslated and are not covered']}
     return flow.report('C16', tier, seed, t0, res)
